@@ -398,7 +398,7 @@ pub fn run_worker(a: WorkerArgs) {
                                 }
                             }
                         }
-                        if matches!(plan.mode.as_str(), "reader" | "load" | "use" | "mem" | "threads") && plan.base.len() <= 1 << 20 {
+                        if matches!(plan.mode.as_str(), "reader" | "load" | "use" | "mem" | "threads" | "trunc") && plan.base.len() <= 1 << 20 {
                             if recent.len() >= 256 {
                                 recent.pop_front();
                             }
